@@ -39,6 +39,7 @@ REQUIRED_REACH = ["facet-opposite-direction", "facet-different-slot", "hdiv-orie
                   "hcurl-orient-both-signs", "curved-mesh", "docs-mesh", "quad-shifted", "hex-rotated",
                   "derived-mesh", "derived-mesh:adaptive", "first-order-simplices-in-given-local-order",
                   "derived-directed:adaptive", "derived-directed:used-elsewhere", "derived-directed:uniform",
+                  "derived-directed:used-oriented", "derived-mesh:parent-tables-in-use",
                   "prism-faces-of-both-kinds"]
 
 
@@ -465,7 +466,7 @@ def derived(ctx, rng, mc, op=None):
     if kind in ("tri", "quad") or nt <= 12:
         ops.append("mirrored")
     if kind in ("tri", "tet") and nt <= 60:
-        ops += ["adaptive", "adaptive", "adaptive-twice", "used-elsewhere", "oriented"]
+        ops += ["adaptive", "adaptive", "adaptive-twice", "used-elsewhere", "oriented", "used-oriented"]
     if kind == "tri":
         ops += ["unsorted"]
     if kind == "quad" and nt <= 40:
@@ -476,10 +477,17 @@ def derived(ctx, rng, mc, op=None):
         ops.append("uniform")
     if op is None:
         op = ops[int(rng.integers(len(ops)))]
-    elif op not in ops:
+    elif op not in ops and not (op.startswith("used-") and op[5:] in ops):
         raise Skip("operation-not-offered-for-this-mesh")
     d = m.p.shape[0]
+    op_full = op
     try:
+        if op.startswith("used-") and op != "used-elsewhere":
+            # the parent was in use before the operation: its facet/edge tables exist (and must not be handed on stale)
+            _ = (m.facets, m.t2f, m.f2t, m.boundary_facets())
+            if d == 3:
+                _ = (m.edges, m.t2e)
+            op = op[5:]
         if op == "restrict":
             keep = np.sort(rng.choice(nt, size=max(2, int(nt * 0.7)), replace=False)) if nt > 2 else np.arange(nt)
             m2 = m.restrict(keep)
@@ -525,12 +533,14 @@ def derived(ctx, rng, mc, op=None):
         ctx.drop("derived-mesh-too-large-or-no-interior-facets")
         return mc
     ctx.reached("derived-mesh:" + op.split("-")[0])
+    if op_full != op:
+        ctx.reached("derived-mesh:parent-tables-in-use")
     ctx.reached("derived-mesh")
     kind2 = {"to_meshtri": "tri", "to_meshtri-x": "tri", "to_meshtet": "tet"}.get(op, kind)
     unsorted = kind2 in ("tri", "tet") and not (np.diff(np.asarray(m2.t), axis=0) > 0).all()
     if op in ("oriented", "unsorted") and unsorted:
         ctx.reached("first-order-simplices-in-given-local-order")
-    return G.MeshCase(m2, kind2, 1, dict(mc.desc, derived=op, ncells=int(m2.t.shape[1]), unsorted_first_order=bool(unsorted and kind2 == "tri")),
+    return G.MeshCase(m2, kind2, 1, dict(mc.desc, derived=op_full, ncells=int(m2.t.shape[1]), unsorted_first_order=bool(unsorted and kind2 == "tri")),
                       affine_cells=(True if kind2 != kind else mc.affine_cells), straight=True, planar_faces=mc.planar_faces)
 
 
@@ -626,7 +636,8 @@ def gen_case(kind):
     return fn
 
 
-DIRECTED_OPS = ("adaptive", "adaptive-twice", "used-elsewhere", "uniform", "restrict", "mirrored")
+DIRECTED_OPS = ("adaptive", "adaptive-twice", "used-elsewhere", "uniform", "restrict", "mirrored", "oriented", "used-oriented",
+                "used-mirrored")
 DIRECTED_ELEMS = {"tri": ("ElementTriP3", "ElementTriRT2", "ElementTriN2", "ElementTriP2", "ElementTriP4"),
                   "tet": ("ElementTetP2", "ElementTetN1", "ElementTetRT1")}
 
@@ -742,4 +753,4 @@ for kd, mult_q, mult_t in (("tri", 2, 40), ("quad", 2, 40), ("tet", 2, 30), ("he
                            (lambda c, kd=kd, a=mult_q, b=mult_t: len(records_with_claim(kd)) * (a if c.tier == "quick" else b)),
                            budget={"quick": 40, "thorough": 900}))
 FAMILIES.append(Family("docs-meshes", docs_meshes, 1, 2, budget={"quick": 60, "thorough": 300}))
-FAMILIES.append(Family("derived-directed", derived_directed, 3 * 30, 3 * 30 * 6, budget={"quick": 40, "thorough": 300}))
+FAMILIES.append(Family("derived-directed", derived_directed, 3 * 45, 3 * 45 * 4, budget={"quick": 40, "thorough": 300}))
